@@ -81,13 +81,15 @@ Step(c, s, row) ==
 PartKey(row) == IF cfg.part = "" THEN <<"all">>
                 ELSE IF "partpath" \in DOMAIN cfg THEN KeyOf(ColPath(row, cfg.partpath))      \* nested partition column
                 ELSE KeyOf(Col(row, cfg.part))
+\* a call may carry an OVER clause of its own (WHERE with the same call text under two different OVER clauses): "part" of the call
+PartKeyC(c, row) == IF "part" \in DOMAIN c THEN (IF c.part = "" THEN <<"all">> ELSE KeyOf(Col(row, c.part))) ELSE PartKey(row)
 Gate(row) == "when" \notin DOMAIN cfg \/ TruthOf(cfg.when, row)
 
 ResOK(e, x) == IF x.k = "avg" THEN e.k = "num" /\ Within(e.v * x.d, x.n, x.d) ELSE Same(e, x)
 
 \* the analytic results of the current input row (index into calls), given states before the row
 Results(row) == [i \in 1..Len(cfg.calls) |->
-    LET k == PartKey(row)  s == Lookup(st[i], k, NoState) IN
+    LET k == PartKeyC(cfg.calls[i], row)  s == Lookup(st[i], k, NoState) IN
     IF Gate(row) THEN Step(cfg.calls[i], s, row) ELSE <<s, Lookup(lastres[i], k, Null)>>]
 
 \* does the row count for the analytic state / is it produced
@@ -99,6 +101,14 @@ AnPass(res) == res.k \in {"num", "avg"} /\
                CASE cfg.wop = ">" -> x[1] > cfg.wlit * x[2]
                  [] cfg.wop = "<" -> x[1] < cfg.wlit * x[2]
                  [] cfg.wop = "=" -> x[1] = cfg.wlit * x[2]
+\* WHERE call1 OP call2 (wmode "analytic2"): both results numeric, compared exactly (denominators are positive)
+AnPass2(r1, r2) == r1.k \in {"num", "avg"} /\ r2.k \in {"num", "avg"} /\
+               LET x == AnNum(r1)  y == AnNum(r2) IN
+               CASE cfg.wop = ">" -> x[1] * y[2] > y[1] * x[2]
+                 [] cfg.wop = "<" -> x[1] * y[2] < y[1] * x[2]
+                 [] cfg.wop = "=" -> x[1] * y[2] = y[1] * x[2]
+                 [] cfg.wop = ">=" -> x[1] * y[2] >= y[1] * x[2]
+                 [] cfg.wop = "<=" -> x[1] * y[2] <= y[1] * x[2]
 
 Reject(code) == /\ PrintT(<<"REJECT", cfg.tr, l, code>>) /\ dead' = TRUE
 Init == l = 1 /\ cfg = [tr |-> -1] /\ st = <<>> /\ lastres = <<>> /\ nrows = 0 /\ pend = <<>> /\ dead = FALSE
@@ -134,12 +144,13 @@ Next ==
         LET row == e.row
             counts == IF cfg.wmode = "plain" THEN PlainPass(row) ELSE TRUE       \* analytic WHERE: evaluated before filtering, every row counts
             rs == Results(row)
-            k == PartKey(row)
-            produced == IF cfg.wmode = "plain" THEN PlainPass(row) ELSE AnPass(rs[1][2]) IN
+            kc(i) == PartKeyC(cfg.calls[i], row)
+            produced == IF cfg.wmode = "plain" THEN PlainPass(row)
+                        ELSE IF cfg.wmode = "analytic2" THEN AnPass2(rs[1][2], rs[2][2]) ELSE AnPass(rs[1][2]) IN
         /\ nrows' = nrows + 1
         /\ IF counts THEN
-              /\ st' = [i \in 1..Len(cfg.calls) |-> Store(st[i], k, rs[i][1])]
-              /\ lastres' = [i \in 1..Len(cfg.calls) |-> Store(lastres[i], k, rs[i][2])]
+              /\ st' = [i \in 1..Len(cfg.calls) |-> Store(st[i], kc(i), rs[i][1])]
+              /\ lastres' = [i \in 1..Len(cfg.calls) |-> Store(lastres[i], kc(i), rs[i][2])]
            ELSE UNCHANGED <<st, lastres>>
         /\ pend' = IF produced THEN <<[i \in 1..Len(cfg.calls) |-> rs[i][2]]>> ELSE <<>>
         /\ IF pend # <<>> THEN Reject("result_missing_for_previous_row") ELSE UNCHANGED dead
